@@ -54,6 +54,10 @@ def gen_texts(ctx):
     # canonical forms of a few schemas
     texts += ['"int"', '{"name":"a.b.R","type":"record","fields":[{"name":"f","type":["null","long"]}]}',
               '{"name":"E","type":"enum","symbols":["A","B"]}', '{"type":"array","items":{"type":"map","values":"string"}}']
+    # texts that are JSON schemas but NOT in canonical form, and texts with outer whitespace: the fingerprint is of the TEXT as given
+    texts += ['{"type":"int"}', '{"type": "int"}', ' "int"', '"int" ', '"int"\n', '["null", "int"]', '["null","int"]',
+              '{"type":"record","name":"R","fields":[]}', '{"name":"R","type":"record","fields":[]}', '{"name": "R", "type": "record", "fields": []}',
+              '{"type":"fixed","size":4,"name":"F"}', '{"name":"F","type":"fixed","size":4}', '{"type":"array","items":{"type":"int"}}', 'null', '{}', '[]', '0']
     texts += ["é" * 4097, "a" * 8193, "\U0001F600" * 700]      # long texts (several KiB of UTF-8)
     return texts
 
@@ -97,7 +101,7 @@ def run(ctx):
     rng = ctx.rng
     for _ in range(40 if ctx.quick() else 400):
         names.append("".join(rng.choice("abcdefSHAMD5-_0123456789 ") for _ in range(rng.randrange(1, 9))))
-    dtexts = ["", "a", '"int"', "héllo \U0001F600", '{"type":"map","values":"long"}']
+    dtexts = ["", "a", '"int"', "héllo \U0001F600", '{"type":"map","values":"long"}', '{"type":"int"}', ' "int" ', '{"name": "R", "type": "record", "fields": []}']
     # long texts whose UTF-8 length differs from their character count (chunked hashing, length confusions): the model decides
     # the dispatch (which algorithm) on the empty text, the digest of the long text is hashlib's / the bit-serial CRC
     ltexts = ["é" * k for k in (4095, 4096, 4097, 8191, 8192, 8193, 20000)] + ["\u20ac" * 5461 + "x", "\U0001F600" * 2049,
